@@ -82,6 +82,8 @@ SPECS = {
     "mpt_queue_set": ("write", "queue", "data", "len", lambda q, p: p["pos"]),
     "mpt_qpush": ("write", "queue", "data", "len", lambda q, p: q["len"] - p["len"]),
     "mpt_qunshift": ("write", "queue", "data", "len", lambda q, p: Lin.const(0)),
+    # in-place removal of [pos, pos+len): every byte moved inside the storage comes from `len` logical positions further on
+    "mpt_queue_crop": ("move", "queue", None, "len", lambda q, p: p["pos"]),
 }
 
 
@@ -105,6 +107,27 @@ def content_hook(f, fr0, spec, entry):
             if isinstance(a, Ptr) and a.region is not None and a.region.kind == "storage":
                 stor, other, w = a, b, way
                 break
+        if direction == "move":
+            if not (isinstance(src, Ptr) and isinstance(dst, Ptr) and src.region is not None and src.region is dst.region and src.region.kind == "storage"):
+                return
+            if st.entails_eq(n, Lin.const(0)):
+                return
+
+            def logical(p):
+                if st.entails(p.off - q["off"]):
+                    return p.off - q["off"]
+                if st.entails(q["off"] - p.off - n):
+                    return p.off + q["max"] - q["off"]
+                return None
+            ls, ld = logical(src), logical(dst)
+            pth = " / ".join(st.trail[-8:])
+            if ls is None or ld is None:
+                an.oblige("CONTENT", fr, e, False, "moved piece (storage offsets %r -> %r, length %r) is in neither segment; path: %s" % (src.off, dst.off, n, pth))
+            else:
+                ok = st.entails_eq(ls, ld + par[ln]) and st.entails(ld - start(q, par))
+                an.oblige("CONTENT", fr, e, ok, "" if ok else "bytes at logical index %r.. are moved to logical index %r.., removing %r bytes at %r needs a distance of exactly that length; path: %s" % (ls, ld, par[ln], start(q, par), pth))
+            st.env[COPIED] = st.env.get(COPIED, Lin.const(0)) + n
+            return
         if stor is None or (isinstance(other, Ptr) and other.region is not None and other.region.kind == "storage"):
             return          # not a transfer between content and caller (moves inside the storage are not judged here)
         if st.entails_eq(n, Lin.const(0)):
@@ -202,6 +225,19 @@ def run_linbounds(prog, ctx=None):
                 if isinstance(v, Lin) and st.entails(-v - Lin.const(1)):
                     continue
                 if isinstance(v, Ptr) and v.region is None and f.T(f.ret).get("k") == "ptr":
+                    continue
+                if spec[0] == "move":
+                    nsucc += 1
+                    posv = entry.env.get(("v", fr.id, pid["pos"]))
+                    if isinstance(posv, Lin) and st.entails_eq(posv, Lin.const(0)):
+                        continue         # removal at the front moves nothing, it advances the offset
+                    want = entry.env.get(("f", "P." + spec[1], "len")) - posv - entry.env.get(("v", fr.id, pid[spec[3]]))
+                    got = st.env.get(("copied", "P." + spec[1]), Lin.const(0))
+                    if st.joined:
+                        continue
+                    if not st.entails_eq(got, want):
+                        okc = False
+                        detc = "%r bytes moved, %r follow the removed range, on path %s" % (got, want, " / ".join(st.trail[-8:]))
                     continue
                 dv = st.env.get(("v", fr.id, pid[spec[2]]))
                 if not (isinstance(dv, Ptr) and dv.region is not None and not dv.maybe_null) and spec[0] == "read":
@@ -466,6 +502,7 @@ def _buf_root(i):
     an.slot_contracts = {"detach": slot_detach, "get_flags": slot_pure, "addref": slot_pure}
     an.max_returns = 8
     an.state_budget = 6000
+    an.track_writes = True
     if f.name != "_mpt_buffer_alloc":
         an.post = {"_mpt_buffer_alloc": post_buffer_alloc}
     an.policy = (lambda fr, g: "inline" if g.file in fileset else "modular")
@@ -506,6 +543,28 @@ def _buf_root(i):
                     inv_det = "%s: %s not shown at return on path %s" % (text, ", ".join(bad), " / ".join(st.trail[-8:]))
     if nb:
         agg["LIN:%s:INV" % f.name] = [inv_ok, FRef(f), f.line, inv_det, True]
+    # USEDCOVER: what a successful call wrote into a payload lies inside the used length it leaves behind
+    cov_ok, cov_det, ncov = True, "", 0
+    for st, v in outs:
+        if isinstance(v, Lin) and st.entails(-v - Lin.const(1)):
+            continue
+        if isinstance(v, Ptr) and v.region is None and f.T(f.ret).get("k") == "ptr":
+            continue
+        for obj, prefix, text in reachable_buffers(an, f, st, fr):
+            reg = an.payload_of(st, obj, prefix)
+            used = st.env.get(("f", obj, prefix + "_used"))
+            if reg is None or not isinstance(used, Lin):
+                continue
+            for end, wtext, wfn in st.env.get(("written", reg.id), ()):
+                ncov += 1
+                if not st.entails(used - end):
+                    if st.joined:
+                        undecided.add("LIN:%s:USEDCOVER" % f.name)
+                    else:
+                        cov_ok = False
+                        cov_det = "%s in %s wrote up to byte %r of %s, _used is %r at the successful return on path %s" % (wtext, wfn, end, text, used, " / ".join(st.trail[-8:]))
+    if ncov:
+        agg["LIN:%s:USEDCOVER" % f.name] = [cov_ok, FRef(f), f.line, cov_det, True]
     if f.name == "_mpt_buffer_alloc":
         check_post_buffer(an, f, fr, entry, outs, "len", True, agg)
     elif f.name.endswith("_detach") and len(f.params) == 2:
@@ -569,7 +628,9 @@ def ident_inv(an, st, obj, prefix, assume):
         sz = an.fresh(st, "inline")
         st.add(sz - Lin.const(4))
         st.add(sz - mx)
-        st.env[("f", obj, prefix + "_val")] = Ptr(Region("inline(%s%s)" % (obj, prefix.rstrip(".")), sz, "storage"), Lin.const(0))
+        reg = Region("inline(%s%s)" % (obj, prefix.rstrip(".")), sz, "storage")
+        st.env[("f", obj, prefix + "_val")] = Ptr(reg, Lin.const(0))
+        st.env[("overlay", reg.id)] = (obj, prefix, 4, "_base")       # bytes behind _val[4] are the bytes of _base
         # external content (only meaningful while _len > _max): a block of _len bytes
         st.env[("f", obj, prefix + "_base")] = Ptr(Region("external(%s%s)" % (obj, prefix.rstrip(".")), ln, "storage"), Lin.const(0), True)
         return None
